@@ -167,7 +167,7 @@ def cap_requests():
     for k in range(11, 20):
         ns += [2 ** k - 1, 2 ** k, 2 ** k + 1]
     ns += [2 ** 20 - 1, 2 ** 20, 3000, 5000, 70000, 100000, 300001, 777777, 1000000,
-           2 ** 26 + 1, 2 ** 30, 2 ** 30 + 1, 2 ** 31 - 1, 2 ** 31, 2 ** 31 + 1, 2 ** 32 - 1]
+           2 ** 22 + 1, 2 ** 30, 2 ** 30 + 1, 2 ** 31 - 1, 2 ** 31, 2 ** 31 + 1, 2 ** 32 - 1]
     return ns
 
 
